@@ -3,8 +3,9 @@
    the DecodeFile and DecodeFileSR loops over box shapes), C03Registry.v (generated on every run from the
    hook-exported key sets of the two decoder tables). *)
 From V.lib Require Import Base.
-From V.c04 Require Import C04AsmModel.
-From V.c03 Require Import C03Model C03Registry C03Proofs.
+From V.c04 Require Import C04Model C04AsmModel C04ContainerProofs.
+From V.c03 Require Import C03Model C03Spec C03Registry C03Proofs C03CanonProofs.
+Open Scope N_scope.
 
 (* Encode to an io.Writer and EncodeSW to a slice writer: identical bytes or both fail, for every container tree and
    every File (init, sidx, segments, fragments, mfra; segment mode and box-tree mode; progressive), given that every
@@ -31,6 +32,24 @@ Theorem C03_file_agree : forall o boxes, o_ism o = false -> o_lazy o = false ->
 Proof. exact file_agree. Qed.
 Print Assumptions C03_file_agree.
 
+(* every canonical byte string (compact headers, size = 8 + body; any nesting of container kinds; opaque leaves whose
+   two decoders accept their canonical payload) is accepted by DecodeBox AND by DecodeBoxSR, and both build the same tree.
+   The two header decoders and the two separately written child loops are the C04 models; fuel = len + 1. *)
+Theorem C03_decode_agree_canonical : forall ld c, leaf_ok ld -> cwf ld c -> fits c ->
+  fst (box_sr ld (cenc c)) = Ok (erase c) /\ fst (box_r ld (cenc c)) = Ok (BBox (erase c)).
+Proof. exact decode_agree_canonical. Qed.
+Print Assumptions C03_decode_agree_canonical.
+
+Theorem C03_decode_agree_canonical_iff : forall ld bs c t, leaf_ok ld -> cwf ld c -> fits c -> bs = cenc c ->
+  (fst (box_r ld bs) = Ok (BBox t) <-> fst (box_sr ld bs) = Ok t).
+Proof. exact decode_agree_canonical_iff. Qed.
+Print Assumptions C03_decode_agree_canonical_iff.
+
+(* the leaves of the correspondence (mdat, free/skip, unknown boxes) are canonical leaves *)
+Theorem C03_std_canon_leaf : forall nm p, std_canon_ok nm p -> canon_leaf std_leaves nm p.
+Proof. exact std_canon_leaf. Qed.
+Print Assumptions C03_std_canon_leaf.
+
 (* the two dispatch tables register the same box types (regenerated from /repo on every run) *)
 Theorem C03_registry : keys_decoders = keys_decoders_sr.
 Proof. exact registry_equal. Qed.
@@ -51,4 +70,17 @@ Example ex_file_agree :
             [mkSeg true 0 [mkFrag (Some [mkTraf true None None [TrunOffset]]) true
                                   [FCMdat; FCMoof [mkTraf true None None [TrunOffset]]] 20] 0]
             [TMdat 4; TMoof [mkTraf true None None [TrunOffset]]; TStyp] true).
+Proof. vm_compute. reflexivity. Qed.
+
+Example ex_ctree : ctree := CNode name_moof [CNode name_traf []; CLeaf name_free [7]%N; CLeaf name_mdat [1;2;3]%N].
+Example ex_ctree_fits : fits ex_ctree.
+Proof. unfold fits. vm_compute. reflexivity. Qed.
+Example ex_ctree_wf : cwf std_leaves ex_ctree.
+Proof.
+  cbn [cwf ex_ctree]. repeat split; try reflexivity;
+    apply std_canon_leaf; (split; [reflexivity|split; [reflexivity|split; [vm_compute; reflexivity|]]]);
+    vm_compute; intros; try discriminate.
+Qed.
+Example ex_ctree_bytes : cenc ex_ctree =
+  [0;0;0;36;109;111;111;102; 0;0;0;8;116;114;97;102; 0;0;0;9;102;114;101;101;7; 0;0;0;11;109;100;97;116;1;2;3]%N.
 Proof. vm_compute. reflexivity. Qed.
